@@ -53,6 +53,15 @@ def build_sup():
     return SUP
 
 
+def build_shim():
+    """the LD_PRELOAD shim that makes FIEMAP answer with short, non-final pages (sup/fiemap_short.c)"""
+    src = VERIF + '/sup/fiemap_short.c'
+    so = os.path.dirname(SUP) + '/fiemap_short.so'
+    if not os.path.exists(so) or os.path.getmtime(so) < os.path.getmtime(src):
+        sh(['gcc', '-O2', '-Wall', '-shared', '-fPIC', '-o', so, src, '-ldl'], check=True)
+    return so
+
+
 def build_lean(targets):
     rc, out = sh(['lake', 'build'] + list(targets), cwd=LEAN)
     return rc == 0, out
